@@ -158,6 +158,7 @@ type Exec struct {
 	callCount map[string]int
 	stubHits  map[string]int
 	sample    *SamplePath
+	sampleSlot int
 	forkSites map[string]int
 	allocLimit int
 }
